@@ -1,7 +1,7 @@
 (* Entry points of the pipe-level correspondence checks. *)
 From Coq Require Import String NArith List Bool.
 From GF Require Import Base.Res Base.Bytes Base.Layout Base.Gen Model.Msg Model.NF Model.Packet Model.ProdNF
-     Model.Pipe Spec.GenPipe Spec.RefStore.
+     Model.Pipe Spec.GenPipe Spec.RefStore Spec.Ghost.
 Import ListNotations.
 Local Open Scope string_scope.
 Open Scope N_scope.
@@ -25,5 +25,14 @@ Definition c06_run (inp : list tok) : list tok :=
   | TS _ :: TS k :: TS _ :: r =>
       pipe_run (if String.eqb k "sflow" then PKSFlow else if String.eqb k "flow" then PKFlow else PKNetFlow)
                empty_prodcfg init_pstate (toks_hist r)
+  | _ => [TS "badinput"]
+  end.
+
+(* C02: the ghost allocation estimate of Spec/Ghost.v for every datagram of a history *)
+Definition c02_run (inp : list tok) : list tok :=
+  match inp with
+  | TS _ :: TS k :: TS _ :: r =>
+      gh_run (if String.eqb k "sflow" then PKSFlow else if String.eqb k "flow" then PKFlow else PKNetFlow)
+             empty_prodcfg init_pstate (toks_hist r)
   | _ => [TS "badinput"]
   end.
